@@ -2,6 +2,7 @@ package main
 
 import (
 	"fmt"
+	"sort"
 	"go/types"
 	"strconv"
 	"strings"
@@ -139,7 +140,7 @@ func (e *Eng) evalSpec(st *State, x *SExpr, env map[string]*Val, old map[string]
 				return scalar("(istr "+a.T+")", "Str", nil)
 			case "calls":
 				key := strings.Trim(x.Args[1].Name, "\"")
-				return scalar(counterOf(st, key), "Int", nil)
+				return scalar(counterSum(st, key), "Int", nil)
 			default:
 				// uninterpreted spec function over ints/strs declared on demand
 				var args []string
@@ -210,6 +211,9 @@ func (e *Eng) evalSpec(st *State, x *SExpr, env map[string]*Val, old map[string]
 				for _, imp := range e.pkg.Types.Imports() {
 					if imp.Name() == x.Args[0].Name {
 						if obj := imp.Scope().Lookup(x.Name); obj != nil {
+							if c, ok := obj.(*types.Const); ok {
+								return constToVal(e, types.TypeAndValue{Type: c.Type(), Value: c.Val()})
+							}
 							return e.globalVal("G$"+imp.Name()+"."+obj.Name(), obj.Type())
 						}
 					}
@@ -245,4 +249,26 @@ func (e *Eng) tagByName(tn string) int {
 	n := len(*e.allTags) + 1
 	(*e.allTags)[tn] = n
 	return n
+}
+
+// counterSum adds up the call counters whose callee key equals name or ends with .name / ).name
+func counterSum(st *State, name string) string {
+	if c, ok := st.counters[name]; ok {
+		return c
+	}
+	var keys []string
+	for k := range st.counters {
+		if strings.HasSuffix(k, "."+name) || strings.HasSuffix(k, ")."+name) || strings.HasSuffix(k, ":"+name) {
+			keys = append(keys, k)
+		}
+	}
+	if len(keys) == 0 {
+		return "0"
+	}
+	sort.Strings(keys)
+	t := st.counters[keys[0]]
+	for _, k := range keys[1:] {
+		t = "(+ " + t + " " + st.counters[k] + ")"
+	}
+	return t
 }
